@@ -1039,3 +1039,36 @@ def gen_selfref_big(rng, tier):
             pre = "res_raw 0 %s" % hx(sec)
             cases.append([pre + " fsck", pre + " fmt"])
     return cases
+
+
+def gen_dangling(rng, tier):
+    """resource directories with entries whose reference points OUTSIDE the resource section — a dangling
+    sub-directory and a dangling data entry next to readable ones, at the root and one level down — inside images of both
+    formats (file and view, specific and wrapper).  The traversal reports such an entry with its name and the error; the
+    serializer writes the member its KIND announces (`"directory"` / `"data"`) as null (the arm of
+    `Serialize for DirectoryEntry` the line-coverage run found unexecuted; round-6 change C19-r6-3 swapped the two names)"""
+    cases = []
+    n = 3 if tier == "quick" else 40
+    for _ in range(n):
+        for bits in (32, 64):
+            leaf = b"DATA" + bytes(rng.randrange(256) for _ in range(4))
+            far = rng.choice([0x1000, 0x7FFFFF00, 0x400])
+            # root: 4 id entries: readable sub-directory, dangling sub-directory, dangling data, readable data
+            root = struct.pack("<IIHHHH", 0, 0, 0, 0, 0, 4)
+            sub_off = 16 + 4 * 8
+            de_off = sub_off + 16 + 2 * 8
+            blob_off = de_off + 16
+            root += struct.pack("<II", 1, 0x80000000 | sub_off) + struct.pack("<II", 2, 0x80000000 | far) + struct.pack("<II", 3, far) + struct.pack("<II", 4, de_off)
+            sub = struct.pack("<IIHHHH", 0, 0, 0, 0, 0, 2) + struct.pack("<II", 7, 0x80000000 | (far + 8)) + struct.pack("<II", 9, far + 16)
+            dir_va = 0x2000
+            de = struct.pack("<IIII", dir_va + blob_off, len(leaf), 1252, 0)
+            sec = root + sub + de + leaf
+            sec += bytes((-len(sec)) % 16)
+            pe = pe_with_rsrc(rng, sec, bits, dir_va, None)
+            data = pe.build()
+            view = load_view(pe, data)
+            for k, buf in (("f%d" % bits, data), ("v%d" % bits, view)):
+                if buf is not None:
+                    kw = "w" + k[0]
+                    cases.append([img_line(rng, buf), "res %s dump" % k, "res %s fsck" % k, "res %s dump" % kw, "res %s fmt" % k])
+    return cases
